@@ -484,7 +484,10 @@ fn realfile_truncations(ctx: &mut Ctx, base: &Case, env: &Env, prop: &str) -> Re
     }
     let full = std::fs::read(&path).map_err(|e| e.to_string())?;
     // sanity: intact file loads
-    match simcore::guarded(|| env.subj.load_encrypted_file(&path, &password)) {
+    arm_cpu_watchdog(EVAL_CPU_SECONDS);
+    let intact = simcore::guarded(|| env.subj.load_encrypted_file(&path, &password));
+    arm_cpu_watchdog(0);
+    match intact {
         Ok(Ok(v)) if env.subj.same(&v, &env.value) => {}
         other => {
             let _ = std::fs::remove_file(&path);
@@ -496,7 +499,9 @@ fn realfile_truncations(ctx: &mut Ctx, base: &Case, env: &Env, prop: &str) -> Re
             ctx.journal.line(&format!("EVAL {}", json!({"realfile": true, "cut": k, "prop": prop, "case": base.to_json()})));
         }
         std::fs::write(&path, &full[..k]).map_err(|e| e.to_string())?;
+        arm_cpu_watchdog(EVAL_CPU_SECONDS);
         let r = simcore::guarded(|| env.subj.load_encrypted_file(&path, &password));
+        arm_cpu_watchdog(0);
         ctx.stats.inc("evals");
         ctx.stats.inc("config.realfile-truncate");
         ctx.stats.inc("fired.cut");
@@ -556,7 +561,9 @@ fn exec_realfile(case: &Case) -> Result<(Option<(String, String)>, &'static str)
         _ => full.len(),
     };
     std::fs::write(&path, &full[..k]).map_err(|e| e.to_string())?;
-    let r = simcore::guarded(|| env.subj.load_encrypted_file(&path, &password));
+    arm_cpu_watchdog(EVAL_CPU_SECONDS);
+        let r = simcore::guarded(|| env.subj.load_encrypted_file(&path, &password));
+        arm_cpu_watchdog(0);
     let _ = std::fs::remove_file(&path);
     Ok(match r {
         Ok(Ok(v)) => {
@@ -741,7 +748,9 @@ fn realfile_passwords(ctx: &mut Ctx, base: &Case, env: &Env) -> Result<(), Strin
         if w == password {
             continue;
         }
+        arm_cpu_watchdog(EVAL_CPU_SECONDS);
         let r = simcore::guarded(|| env.subj.load_encrypted_file(&path, &w));
+        arm_cpu_watchdog(0);
         ctx.stats.inc("evals");
         ctx.stats.inc("config.realfile-wrong-password");
         ctx.stats.inc("fired.wrong-password");
